@@ -33,6 +33,8 @@ RULE = ('from_sparse: exhaustive small scope (<= 2 spikes, <= 3 local columns, c
         'spikes, judged through the linked model C06/LinkC03.v (C03 get_waveforms -> compute_features -> placement): exactly '
         'diagonalisable masked waveforms (components judged per channel as far as they are determined) and arbitrary integer '
         'waveforms (waveform stage, zero features of unstored channels, placement; two spikes: feature 0 within 2^-18). '
+        'Full sweep: from_sparse on int64 / uint64 data with cells beyond 2^53 (integer results are observed exactly, not through '
+        'float64). '
         'Non-trivial = at least one stored value lands in the output; distinct = distinct abstract input.')
 EXHAUSTIVE = {'quick': True, 'thorough': True}
 CLAUSES = {
@@ -340,6 +342,23 @@ def _big(rng, what, n_spikes, stride, req, down=False):
                                    'ids_dtype': 'int64'}}
 
 
+def _fs_wide(rng):
+    """from_sparse on int64 / uint64 data with cells beyond 2^53 (not representable in float64)."""
+    c = _fs_random(rng)
+    dt = rng.choice(['int64', 'int64', 'uint64'])
+    for row in c['inp']['data']:
+        for cell in row:
+            for t in range(len(cell)):
+                r = rng.random()
+                if r < 0.6:
+                    v = 2 ** rng.randint(53, 62) + rng.choice([1, 3, 2 ** 20 + 1]) + cell[t]
+                    cell[t] = -v if (dt == 'int64' and rng.random() < 0.3) else v
+                elif r < 0.7:
+                    cell[t] = 2 ** 63 - 1 if dt == 'int64' else 2 ** 64 - 1
+    c['inp']['dtype'] = dt
+    return c
+
+
 def _idx_small(rng):
     n = rng.randint(0, 6)
     vals = rng.sample(range(0, 12), n)
@@ -509,6 +528,10 @@ def _corpus(rng):
     cases.append(_fs(_cells(1, 2, ()), [[0, 1]], [1, 1], [1], 2))       # duplicate request rejected
     cases.append(_fs(_cells(1, 2, ()), [[-1, 3]], [3, 0], [0, 3], 2))   # -1 padding entry in the column table
     cases.append(_fs(_cells(1, 3, ()), [[4, 4, 1]], [4, 1], [1, 4], 3))  # a channel twice in a row (undetermined)
+    # stage 4 (full sweep #121): integer stores whose cells float64 cannot hold -- the dense array keeps data.dtype
+    cases.append(_fs([[[2 ** 53 + 1], [-(2 ** 53) - 1]]], [[3, 1]], [1, 3], [3, 1], 2, dtype='int64'))
+    cases.append(_fs([[[2 ** 63 - 1, 7]], [[-(2 ** 63), 2 ** 62 + 1]]], [[0], [2]], [2, 0, 4], [0], 1, (2,), dtype='int64'))
+    cases.append(_fs([[[2 ** 64 - 1], [2 ** 53 + 1]]], [[0, -1]], [0], [1, 0], 2, dtype='uint64'))
     # the inputs on which get_template_features failed before fix-c06 (rows sorted by spike id instead of
     # request order; AssertionError for a request naming a spike outside the row table)
     tf = {'what': 'tfeatures', 'n_templates': 3, 'n_channels': 3, 'spike_templates': [2, 2, 1], 'spike_clusters': None,
@@ -577,6 +600,8 @@ def generate(tier, rng):
         for _ in range(300):
             cases.append(_pca_sparse(rng, 'exact'))
             cases.append(_pca_sparse(rng, 'general'))
+        for _ in range(200):
+            cases.append(_fs_wide(rng))
         return cases
     quick = tier == 'quick'
     cases += _fs_exhaustive(tier)
@@ -628,6 +653,9 @@ def generate(tier, rng):
         cases.append(_big(rng, 'features', 140000, 2, 'long', down=True))
         cases.append(_big(rng, 'tfeatures', 70000, 1, 'long'))
         cases.append(_big(rng, 'features', 200000, 3, 'ends', down=True))
+    # stage 4 (full sweep): int64 / uint64 data beyond 2^53 (appended last: the streams above are unchanged)
+    for _ in range(40 if quick else 600):
+        cases.append(_fs_wide(rng))
     return cases
 
 
@@ -647,7 +675,9 @@ def _arr_obs(a, lead):
     for s in range(ns):
         row = []
         for j in range(n):
-            row.append([D.tok(v) for v in np.asarray(a[s, j], dtype=np.float64).ravel().tolist()])
+            blk = np.asarray(a[s, j])
+            # integer results are observed exactly (float64 cannot hold an int64 / uint64 cell beyond 2^53)
+            row.append([D.tok(v) for v in (blk if blk.dtype.kind in 'iub' else blk.astype(np.float64)).ravel().tolist()])
         rows.append(row)
     return ('arr', shape, rows)
 
@@ -955,6 +985,8 @@ def dist(case, obs):
         out.append('fs.outcome=%s/%s' % (obs[1][0] + (str(obs[1][1]) if obs[1][0] == 'err' else ''),
                                          obs[2][0] + (str(obs[2][1]) if obs[2][0] == 'err' else '')))
         out.append('fs.second_request=%s' % ('same-set' if sorted(i['chans']) == sorted(i['chans2']) else 'other'))
+        out.append('fs.dtype=%s' % i['dtype'])
+        out.append('fs.cell_beyond_2^53=%s' % any(abs(v) > 2 ** 53 for r in i['data'] for c in r for v in c))
     elif k in ('features', 'tfeatures'):
         out.append('%s.row_table=%s' % (k, i['rows'] is not None))
         out.append('%s.col_table=%s' % (k, i['ind'] is not None))
